@@ -147,7 +147,40 @@ var includeNames = []string{"a.jst", "b.jst", "c.jst", "sub/d.jst", "sub/e.jst",
 	"/etc/passwd", "sub/../a.jst", "./a.jst", "sub\\d.jst", "\"a.jst\"", "\"sub/d.jst\"", "\"\"", "a.jst extra", "a.jst // note", "sub/", "sub//d.jst", "a.jst/x", "...", ".hidden.jst", "\"a b.jst\""}
 
 // small include graphs: files a,b,c, sub/d, sub/e with random INCLUDE lines (cycles, diamonds, repeated, bad names)
+// deepIncludeChain: root -> f01 -> ... -> fNN (no cycle), the last file includes a leaf twice;
+// sometimes the last file includes an earlier one instead (a real cycle of known length)
+func deepIncludeChain(p *PRNG) *Case {
+	depth := 1 + p.Intn(40)
+	files := map[string][]byte{}
+	name := func(i int) string {
+		if i == 0 {
+			return "root.jst"
+		}
+		return fmt.Sprintf("f%02d.jst", i)
+	}
+	for i := 0; i <= depth; i++ {
+		var b strings.Builder
+		if i == 0 {
+			b.WriteString("JSIGHT 0.3\n")
+		}
+		b.WriteString(fmt.Sprintf("TYPE @t%d\n  %d\n", i, i))
+		if i < depth {
+			b.WriteString("INCLUDE " + name(i+1) + "\n")
+		} else if p.Chance(1, 4) {
+			b.WriteString("INCLUDE " + name(p.Intn(depth+1)) + "\n") // a cycle
+		} else {
+			b.WriteString("INCLUDE leaf.jst\nINCLUDE leaf.jst\n")
+		}
+		files[name(i)] = []byte(b.String())
+	}
+	files["leaf.jst"] = []byte("# nothing\n")
+	return &Case{Op: "proj", Files: files, Root: "root.jst", Tag: "include-chain", Args: []string{"tree"}}
+}
+
 func genIncludeGraph(p *PRNG) *Case {
+	if p.Chance(1, 8) {
+		return deepIncludeChain(p)
+	}
 	names := []string{"root.jst", "a.jst", "b.jst", "c.jst", "sub/d.jst", "sub/e.jst", ".hidden.jst", "a b.jst"}
 	files := map[string][]byte{"../secret.jst": []byte("TYPE @secret\n  1\n")}
 	for i, n := range names {
